@@ -42,6 +42,8 @@ def engine_classifier_verdict(F, path):
         if rv[0] == "use" and rv[1][0] == "k":
             if rv[1][1].strip() != "const false":
                 problems.append("returns constant true on some path")
+            elif not _on_failure_side(b, d[1], pq + plans):
+                problems.append("answers `false` (read) on a path that is not the failure of parsing or planning — a pre-check that guesses from the AST is a second classifier that can disagree with the plan")
             continue
         ok = False
         if rv[0] == "use":
@@ -53,6 +55,23 @@ def engine_classifier_verdict(F, path):
         if not ok:
             problems.append("a returned value is neither `false` nor `plan.is_write` of this statement's plan")
     return (not problems), "; ".join(problems) if problems else "returns only false or plan(parse(stmt)).is_write"
+
+
+def _on_failure_side(b, block, calls):
+    """the block is dominated by the Err side of a switch on the Result of one of `calls`"""
+    for c in calls:
+        derived = b.forward_taint({c.dest[0]}, through_calls=lambda cc, ix: cc.path.rsplit("::", 1)[-1] in ("branch", "as_ref", "map_err"))
+        for i in sorted(b.live_blocks()):
+            t = b.blocks[i]["t"]
+            if t[0] != "switch" or t[1][0] == "k":
+                continue
+            ds = b.defs().get(t[1][1][0], [])
+            if len(ds) == 1 and ds[0][0] == "stmt" and ds[0][4][0] == "discr" and ds[0][4][1][0] in derived and b.local_ty(ds[0][4][1][0]).startswith("std::result::Result<"):
+                one = [tgt for v, tgt in t[2] if v == "1"]
+                err_t = one[0] if one else t[3]
+                if b.dominates(err_t, block) and len(b.pred(err_t)) == 1:
+                    return True
+    return False
 
 
 def run(ctx, F, cg):
